@@ -26,7 +26,10 @@ PARTIAL = {
 }
 TRUSTED = ['str.upper is applied per code point and never yields the empty string (checked for every string sent)',
            're.sub("[^A-Z0-9_]{1}", "_", s) modelled as a per-character map (checked by S-fn)']
-ASSUMPTIONS = ['CPython str.upper per-code-point full case mapping']
+ASSUMPTIONS = ['CPython str.upper per-code-point full case mapping',
+               'hypothesis s ≠ [] of mangle_*_legal: at the excluded point the helpers return ("", "") i.e. the illegal ".;1" / ""; '
+               'an empty source name cannot reach them through the facades or pycdlib-genisoimage (path components are never empty), so '
+               'this is recorded as an assumption and not as a finding']
 RULE = ('strings built from every case-changing code point at positions around the 8/30/31/3 cuts, ASCII shapes, random '
         'Unicode; x levels 1-4 x file/dir; distinct = distinct (string, level, kind); non-trivial = the result differs '
         'from the input (something was mangled) or the input is legal (identity case)')
@@ -210,6 +213,50 @@ def facade_oracle(ctx, names, lvl):
     ctx.count(key=('facade', tuple(names), lvl), kind='facade', nontrivial=len(added) > 0)
 
 
+def facade_nested(ctx, dirname, lvl):
+    """the Rock Ridge facade below a directory whose ISO9660 identifier is NOT the mangling of its Rock Ridge name (added
+    through the main API, or numbered by a tool), while another directory carries exactly that mangled identifier: an
+    entry added by Rock Ridge path must land in the directory that has that Rock Ridge name, at any depth."""
+    import pycdlib
+    from pycdlib import utils
+    rp = {'kind': 'facade-nested', 'dir': [ord(c) for c in dirname], 'lvl': lvl}
+    iso = pycdlib.PyCdlib()
+    iso.new(interchange_level=lvl, rock_ridge='1.09')
+    mangled = utils.mangle_dir_for_iso9660(dirname, lvl)
+    other = 'Q' + dirname[:5] + 'q'
+    try:
+        iso.add_directory('/' + mangled, rr_name=other)                # carries the identifier the facade would derive
+        iso.add_directory('/ZZ000', rr_name=dirname)                   # the directory the caller means
+        iso.add_directory('/ZZ000/SUB', rr_name='sub')
+    except Exception:  # noqa  (names the main API refuses are C13's subject)
+        iso.close()
+        return
+    fac = iso.get_rock_ridge_facade()
+    todo = [('/' + dirname + '/f1.txt', b'one'), ('/' + dirname + '/sub/f2.txt', b'two')]
+    for path, data in todo:
+        try:
+            fac.add_fp(io.BytesIO(data), len(data), path, 0o100444)
+        except Exception as e:  # noqa
+            ctx.violation('C18.facade/nested-add-fails', 'facade add_fp(%r) at level %d fails although the Rock Ridge parent exists: %r' % (path, lvl, e), rp)
+            iso.close()
+            return
+    ctx.count(key=('facade-nested', dirname, lvl), kind='facade-nested', nontrivial=True)
+    try:
+        here = sorted(c.rock_ridge.name() for c in iso.list_children(rr_path='/' + dirname) if c.rock_ridge is not None and not c.is_dot() and not c.is_dotdot())
+        there = sorted(c.rock_ridge.name() for c in iso.list_children(rr_path='/' + other) if c.rock_ridge is not None and not c.is_dot() and not c.is_dotdot())
+        if b'f1.txt' not in here or there:
+            ctx.violation('C18.facade/nested-wrong-parent', 'facade add_fp(%r): children of /%s are %s, children of /%s are %s' % (
+                todo[0][0], dirname, here, other, there), rp)
+        for path, data in todo:
+            got = io.BytesIO()
+            fac.get_file_from_iso_fp(got, path)
+            if got.getvalue() != data:
+                ctx.violation('C18.facade/nested-wrong-entry', 'facade read of %r returns other bytes' % path, rp)
+    except Exception as e:  # noqa
+        ctx.violation('C18.facade/nested-lookup-fails', 'after the facade additions below /%s: %r' % (dirname, e), rp)
+    iso.close()
+
+
 def gen_facade_sets(ctx):
     rng = ctx.rng
     pool = ['a', 'b', 'Z', '9', '_', '.', '-', ' ', 'ß', 'é', '中', 'x', ';']
@@ -231,6 +278,12 @@ def run(ctx):
     for names in gen_facade_sets(ctx):
         for lvl in (1, 3, 4):
             facade_oracle(ctx, names, lvl)
+    for dirname in ['reports', 'Reports', 'REPORTS2', 'long directory name', 'ß', 'a.b', 'x' * 40] + \
+            [''.join(ctx.rng.choice('abcXYZ09_- .é') for _ in range(ctx.rng.randint(1, 12))) for _ in range(10 if ctx.quick else 200)]:
+        if dirname.strip('.') == '' or '/' in dirname:
+            continue
+        for lvl in (1, 2, 3, 4):
+            facade_nested(ctx, dirname, lvl)
 
 
 def replay(ctx, obj):
@@ -239,6 +292,8 @@ def replay(ctx, obj):
     if r.get('kind') == 'mangle':
         s = ''.join(chr(c) for c in r['s'])
         run_fn(ctx, [s])
+    elif r.get('kind') == 'facade-nested':
+        facade_nested(ctx, ''.join(chr(c) for c in r['dir']), r['lvl'])
     elif r.get('kind') == 'facade':
         facade_oracle(ctx, [''.join(chr(c) for c in n) for n in r['names']], r['lvl'])
     for v in ctx.violations:
